@@ -128,7 +128,8 @@ func c20resp(c *run.Ctx) {
 						}
 						for k := range m {
 							if !allowed[k] && k != "active" {
-								viol("error-body-extra-member", writer, "unexpected member "+k+" in "+body)
+								// further members (error_uri, ...) are legal in an RFC 6749 error body: observed, not judged
+								c.Count("c20_error_body_other_member:"+k, 1)
 							}
 						}
 					}
